@@ -206,6 +206,9 @@ void reb_integrator_init(struct reb_simulation* r){
 		case REB_INTEGRATOR_SEI:
 			reb_integrator_sei_init(r);
 			break;
+		case REB_INTEGRATOR_BS:
+			reb_integrator_bs_init(r);
+			break;
 		default:
 			break;
 	}
